@@ -266,6 +266,18 @@ class WorldA:
         try:
             outs = [oracles.evaluate(cc, X) for X in self._probes_for_new(c)]
         except Exception as e:
+            # Differential birth test: the same circuit with every tensor / reference replaced by
+            # a constant holding the current value, compiled with the same flags, differs from
+            # this one only in the sharing mechanism (pointers, registry, fold indices).  If that
+            # one evaluates the probe batches and this one does not, the failure is the
+            # mechanism's (I4); if both fail it is a function of (circuit, flags): excluded.
+            if "I4" in self.checks and self._fresh_compile_ok(c):
+                raise Violation(
+                    "I4",
+                    f"{c.name} ({self._describe(c)}) cannot be evaluated right after compilation "
+                    f"({type(e).__name__}: {str(e)[:120]}) although its dereferenced recompilation "
+                    f"with the same flags can",
+                )
             c.excluded = f"birth-eval:{type(e).__name__}"
             self.tr.ev("excluded", c.name, c.excluded, str(e)[:100])
             self.tr.count(f"excluded:{c.excluded}")
